@@ -775,6 +775,7 @@ func c14Rest(c *Ctx) {
 	c06HeaderCase(c)
 	c14BodyEndsBlock(c)
 	c14LookaheadComments(c)
+	c14HeaderValuesFresh(c)
 
 	// JSON target codec
 	tgt := c.P.Named("lib", "Target")
@@ -1892,4 +1893,91 @@ func c14PeekingScanner(c *Ctx) {
 		}
 	}
 	c.Check(ok, key, rule, "peek recorded, delivered once, no advance while peeked", why, c.fnAt(text), c.fnAt(scan), c.fnAt(peek))
+}
+
+// c14HeaderValuesFresh: the JSON target decoder builds one value slice per header name. The slice
+// stored under a name must not be carried over from the previous name of the same object (a slice
+// variable declared outside the per-name loop and re-sliced to [:0] makes every name share one
+// backing array: earlier names end up with the last name's values).
+func c14HeaderValuesFresh(c *Ctx) {
+	const rule = "in the JSON target decoder the slice stored under a header name is built within that name's iteration (nil, make, literal, appends onto those): it is never a re-slice of, or an append onto, the slice of the previous name"
+	key := "header-values-fresh:(*lib.jsonTarget).decode"
+	fn := c.P.Func("lib", "jsonTarget.decode")
+	if fn == nil {
+		c.Undecided(key, rule, "lib.jsonTarget.decode not found")
+		return
+	}
+	c.Saw("function " + shortFn(fn))
+	var sites, bad []ssa.Instruction
+	for _, g := range region(fn) {
+		eachInstr(g, func(i ssa.Instruction) {
+			mu, ok := i.(*ssa.MapUpdate)
+			if !ok {
+				return
+			}
+			mt, isMap := mu.Map.Type().Underlying().(*types.Map)
+			if !isMap {
+				return
+			}
+			if _, isSl := mt.Elem().Underlying().(*types.Slice); !isSl {
+				return
+			}
+			sites = append(sites, mu)
+			h := loopHeaderOf(mu.Block())
+			if h == nil {
+				return
+			}
+			seen := map[ssa.Value]bool{}
+			carried := false
+			var walk func(v ssa.Value)
+			walk = func(v ssa.Value) {
+				if v == nil || seen[v] || carried {
+					return
+				}
+				seen[v] = true
+				switch x := v.(type) {
+				case *ssa.Phi:
+					if x.Block() == h {
+						carried = true // value of the previous name's iteration
+						return
+					}
+					for _, e := range x.Edges {
+						walk(e)
+					}
+				case *ssa.Slice:
+					walk(x.X)
+				case *ssa.ChangeType:
+					walk(x.X)
+				case *ssa.Call:
+					if callName(&x.Call) == "builtin:append" {
+						walk(x.Call.Args[0])
+					}
+				case *ssa.UnOp:
+					if al, isAl := x.X.(*ssa.Alloc); isAl && x.Op == token.MUL {
+						// a slice variable kept in a cell: declared outside the loop → carried
+						if !h.Dominates(al.Block()) || al.Block() == h {
+							carried = true
+							return
+						}
+						for _, r := range refs(al) {
+							if st, isSt := r.(*ssa.Store); isSt && st.Addr == ssa.Value(al) {
+								walk(st.Val)
+							}
+						}
+					}
+				}
+			}
+			walk(mu.Value)
+			if carried {
+				bad = append(bad, mu)
+			}
+		})
+	}
+	sortInstrs(sites)
+	sortInstrs(bad)
+	if len(bad) > 0 {
+		c.Fail(key, rule, "the slice stored under a header name derives from the slice of the previous name: all names of one target share a backing array", c.ats(bad)...)
+		return
+	}
+	c.Check(len(sites) > 0, key, rule, "per-name slices", "no header map update found in the JSON target decoder", c.ats(sites)...)
 }
